@@ -601,6 +601,12 @@ var registry = []*helper{
 	fresh("Without/spread", sA|sB, func(e *env, c Call) any { return gogu.Without[int, int](e.a, e.b...) }),
 	fresh("Difference", sA|sB, func(e *env, c Call) any { return gogu.Difference(e.a, e.b) }),
 	fresh("DifferenceBy", sA|sB, func(e *env, c Call) any { return gogu.DifferenceBy(e.a, e.b, keyFn(c.F)) }).f(),
+	// the same slice in two argument positions: the result is still a slice of its own
+	fresh("Difference/self", sA, func(e *env, c Call) any { return gogu.Difference(e.a, e.a) }),
+	fresh("DifferenceBy/self", sA, func(e *env, c Call) any { return gogu.DifferenceBy(e.a, e.a, keyFn(c.F)) }).f(),
+	fresh("Intersection/self", sA, func(e *env, c Call) any { return gogu.Intersection(e.a, e.a) }),
+	fresh("Merge/self", sA, func(e *env, c Call) any { return gogu.Merge(e.a, e.a) }),
+	fresh("Without/self", sA, func(e *env, c Call) any { return gogu.Without[int, int](e.a, e.a...) }),
 	view("Chunk", sA, func(e *env, c Call) any { return gogu.Chunk(e.a, c.N) }).n(), // panics for size <= 0 (documented)
 	view("Drop", sA, func(e *env, c Call) any { return gogu.Drop(e.a, c.N) }).n(),
 	fresh("DropWhile", sA, func(e *env, c Call) any { return gogu.DropWhile(e.a, pred(c.F)) }).f(),
